@@ -14,6 +14,22 @@ def init():
   from openhtf.util import console_output  # pylint: disable=g-import-not-at-top
   console_output.CLI_QUIET = True
   sys.argv = [sys.argv[0]]
+  threading.excepthook = _excepthook
+
+
+THREAD_ERRORS = []
+
+
+def _excepthook(args):
+  """Quiet, recording replacement for threading.excepthook.
+
+  Abandoned (timed-out / killed) phase threads die with ThreadTerminationError
+  some time later; that is expected and not an executor failure.
+  """
+  name = args.thread.name if args.thread else '?'
+  if args.exc_type.__name__ == 'ThreadTerminationError':
+    return
+  THREAD_ERRORS.append((name, args.exc_type.__name__, str(args.exc_value)))
 
 
 class Capture(object):
@@ -38,18 +54,11 @@ def run_test(nodes, test_start=None, callbacks=(), options=None, diagnosers=(),
     test.add_test_diagnosers(*diagnosers)
   if options:
     test.configure(**options)
-  thread_errors = []
-  old_hook = threading.excepthook
-
-  def hook(args):
-    thread_errors.append((args.thread.name if args.thread else '?', args.exc_type.__name__, str(args.exc_value)))
-
-  threading.excepthook = hook
+  mark = len(THREAD_ERRORS)
   try:
-    try:
-      res = test.execute(test_start=test_start)
-    except BaseException as e:  # pylint: disable=broad-except
-      res = e
-  finally:
-    threading.excepthook = old_hook
+    res = test.execute(test_start=test_start)
+  except BaseException as e:  # pylint: disable=broad-except
+    res = e
+  thread_errors = [e for e in THREAD_ERRORS[mark:] if e[0].startswith('TestExecutorThread')]
+  del THREAD_ERRORS[:]
   return res, cap.records, test, thread_errors
